@@ -294,3 +294,30 @@ Fixpoint count_send (sid : Z) (evs : list event) : Z :=
   | ESend s :: r => (if s =? sid then 1 else 0) + count_send sid r
   | _ :: r => count_send sid r
   end.
+
+(* ------------------------------------------------------------------ liveness, as a statement about the model *)
+(* `evs`: any schedule of a peer that keeps the credits within 2^31-1, after which the stream `sid` has been given
+   credit for its whole body, and the connection credit covers the bodies of all streams opened; then the sender
+   of `sid` runs (k iterations, no further event needed).  Claim: its DATA frames carry the whole body, in order. *)
+Definition liveness_statement (g : cfg) : Prop :=
+  forall cw i0 m0 evs sid body (k : nat),
+    0 <= cw <= i32_max -> 0 <= i0 <= i32_max -> 16384 <= m0 <= 16777215 ->
+    Forall ev_valid evs -> bounded cw i0 m0 evs ->
+    sl_open (sledger sid evs) = true -> sl_body (sledger sid evs) = body ->
+    body <= stream_credit cw i0 m0 sid evs ->
+    gl_bodies (gledger cw i0 m0 evs) <= conn_credit cw i0 m0 evs ->
+    body / 16384 + 1 <= Z.of_nat k ->
+    delivers body (frames_of sid (snd (run g (conn_new cw i0 m0) (evs ++ repeat (ESend sid) k)))).
+
+(* the same with an arbitrary continuation `tail` (other streams sending, more credit, settings changes) during
+   which the credit conditions keep holding and the sender of `sid` gets enough iterations *)
+Definition liveness_general_statement (g : cfg) : Prop :=
+  forall cw i0 m0 pre tail sid body,
+    0 <= cw <= i32_max -> 0 <= i0 <= i32_max -> 16384 <= m0 <= 16777215 ->
+    Forall ev_valid (pre ++ tail) -> bounded cw i0 m0 (pre ++ tail) ->
+    sl_open (sledger sid pre) = true -> sl_body (sledger sid pre) = body ->
+    (forall p q, tail = p ++ q ->
+       body <= stream_credit cw i0 m0 sid (pre ++ p) /\
+       gl_bodies (gledger cw i0 m0 (pre ++ p)) <= conn_credit cw i0 m0 (pre ++ p)) ->
+    body / 16384 + 1 <= count_send sid tail ->
+    delivers body (frames_of sid (snd (run g (conn_new cw i0 m0) (pre ++ tail)))).
